@@ -1,12 +1,17 @@
 package main
 
 import (
+	"context"
 	"fmt"
+	"net/http"
+	"net/http/httptest"
 	"net/url"
 	"strings"
+	"sync"
 
 	"cuelabs.dev/go/oci/ociregistry"
 	"cuelabs.dev/go/oci/ociregistry/ociref"
+	"cuelabs.dev/go/oci/ociregistry/ociserver"
 	"cuelabs.dev/go/oci/ociregistry/ociverif"
 )
 
@@ -150,6 +155,9 @@ func routerDiffers(pos, s string, valid bool) string {
 		if acc := r != nil && r.Kind == ociverif.ReqManifestDelete; acc != valid || (acc && r.Repo != s) {
 			return "router-differs:repo-of-manifest"
 		}
+		if d := c17ServerSees("HEAD", "/v2/", s, "/blobs/sha256:"+strings.Repeat("0", 64), valid, "ResolveBlob"); d != "" {
+			return d
+		}
 	case "tag": // valid = a tag or a digest
 		if len(elems) != 1 || s == "" {
 			return ""
@@ -157,6 +165,9 @@ func routerDiffers(pos, s string, valid bool) string {
 		r := parse("GET", "/v2/foo/manifests/"+s, "")
 		if (r != nil && r.Kind == ociverif.ReqManifestGet && (r.Tag == s || r.Digest == s)) != valid {
 			return "router-differs:manifest-reference"
+		}
+		if d := c17ServerSees("HEAD", "/v2/foo/manifests/", s, "", valid, "Resolve"); d != "" {
+			return d
 		}
 	case "digest":
 		if len(elems) != 1 || s == "" || s == "uploads" {
@@ -170,6 +181,110 @@ func routerDiffers(pos, s string, valid bool) string {
 		if (r != nil && r.Kind == ociverif.ReqReferrersList && r.Digest == s) != valid {
 			return "router-differs:referrers-digest"
 		}
+		if d := c17ServerSees("HEAD", "/v2/foo/blobs/", s, "", valid, "ResolveBlob"); d != "" {
+			return d
+		}
+	}
+	return ""
+}
+
+// ---- the real server: the same question asked over HTTP, with the value percent-encoded in places ----
+
+type c17Seen struct {
+	method string
+	value  string
+}
+
+var (
+	c17SrvOnce sync.Once
+	c17Srv     http.Handler
+	c17SrvMu   sync.Mutex
+	c17SrvSeen []c17Seen
+)
+
+func c17Server() http.Handler {
+	c17SrvOnce.Do(func() {
+		see := func(m, v string) { c17SrvSeen = append(c17SrvSeen, c17Seen{m, v}) }
+		d := ociregistry.Descriptor{MediaType: "application/octet-stream", Digest: "sha256:" + ociregistry.Digest(strings.Repeat("0", 64)), Size: 1}
+		c17Srv = ociserver.New(&ociregistry.Funcs{
+			ResolveBlob_: func(ctx context.Context, repo string, dg ociregistry.Digest) (ociregistry.Descriptor, error) {
+				see("ResolveBlob", repo+" "+string(dg))
+				return d, nil
+			},
+			ResolveManifest_: func(ctx context.Context, repo string, dg ociregistry.Digest) (ociregistry.Descriptor, error) {
+				see("Resolve", repo+" "+string(dg))
+				return d, nil
+			},
+			ResolveTag_: func(ctx context.Context, repo string, tag string) (ociregistry.Descriptor, error) {
+				see("Resolve", repo+" "+tag)
+				return d, nil
+			},
+		}, nil)
+	})
+	return c17Srv
+}
+
+// c17Escape writes s for a URL path with every byte that needs it percent-encoded, and every third
+// byte that does not need it as well (a client is free to: %62 is b); '/' stays a separator.
+func c17Escape(s string) string {
+	var sb strings.Builder
+	for i := 0; i < len(s); i++ {
+		c := s[i]
+		plain := c >= 'a' && c <= 'z' || c >= 'A' && c <= 'Z' || c >= '0' && c <= '9' || c == '-' || c == '.' || c == '_' || c == '~'
+		switch {
+		case c == '/':
+			sb.WriteByte(c)
+		case plain && i%3 != 1:
+			sb.WriteByte(c)
+		default:
+			fmt.Fprintf(&sb, "%%%02X", c)
+		}
+	}
+	return sb.String()
+}
+
+// c17ServerSees sends method prefix+s+suffix to a real ociserver, s percent-encoded in places, and
+// compares what the backend is asked with the predicate: asked (about exactly s) iff valid.
+func c17ServerSees(method, prefix, s, suffix string, valid bool, want string) string {
+	if s == "" || strings.Contains(s, "//") || strings.HasPrefix(s, "/") || strings.HasSuffix(s, "/") || len(s) > 4096 {
+		return "" // net/http cleans such paths before the server sees them
+	}
+	for _, e := range strings.Split(s, "/") {
+		if e == "." || e == ".." {
+			return ""
+		}
+	}
+	req, err := http.NewRequest(method, "http://registry.example"+prefix+c17Escape(s)+suffix, nil)
+	if err != nil {
+		return ""
+	}
+	h := c17Server()
+	c17SrvMu.Lock()
+	defer c17SrvMu.Unlock()
+	c17SrvSeen = nil
+	rec := httptest.NewRecorder()
+	h.ServeHTTP(rec, req)
+	asked := false
+	for _, x := range c17SrvSeen {
+		if x.method != want {
+			continue
+		}
+		var exact bool
+		if suffix != "" {
+			exact = strings.HasPrefix(x.value, s+" ")
+		} else {
+			exact = strings.HasSuffix(x.value, " "+s)
+		}
+		if !exact {
+			return "router-differs:server-passes-another-value"
+		}
+		asked = true
+	}
+	if asked != valid {
+		if valid {
+			return "router-differs:server-refuses-valid-value-when-encoded"
+		}
+		return "router-differs:server-accepts-invalid-value"
 	}
 	return ""
 }
